@@ -251,6 +251,18 @@ def construct_asts():
             out.append(("path", None, True, [DOS, ("attribute", at, [])] + tail))
             out.append(("path", None, True, [DOS, ("child", ("*",), []), ("attribute", at, [("num", "1")])] + tail))
             out.append(("path", None, True, [DOS, ("child", ("*",), [("path", None, False, [("attribute", at, [])] + tail)])]))
+    # numeric predicates whose number depends on the context node: SEVERAL nodes of one step match their own position
+    # (`[E]` = `[position() = E]` for each node separately; round-6 seed C08-G stopped at the first match)
+    prevs = ("bin", "+", ("call", "count", [("path", None, False, [("preceding-sibling", ("*",), [])])]), ("num", "1"))
+    prevn = ("bin", "+", ("call", "count", [("path", None, False, [("preceding-sibling", ("node",), [])])]), ("num", "1"))
+    for npd in (("call", "position", []), prevs, prevn, ("call", "number", [("path", None, False, [("attribute", ("name", "x"), [])])]),
+                ("bin", "-", ("bin", "+", ("call", "last", []), ("num", "1")),
+                 ("bin", "+", ("call", "count", [("path", None, False, [("following-sibling", ("*",), [])])]), ("num", "1")))):
+        for t in (("*",), ("node",), ("name", "a"), ("name", "b")):
+            out.append(("path", None, True, [("child", ("name", "r"), []), ("child", t, [("numpred", npd)])]))
+            out.append(("path", None, True, [DOS, ("child", t, [("numpred", npd)])]))
+            out.append(("filter", ("path", None, True, [DOS, ("child", t, [])]), [("numpred", npd)]))
+            out.append(("path", None, True, [DOS, ("child", t, [("numpred", npd), ("num", "1")])]))
     for ax in G.AXES:
         for t in (("*",), ("node",)):
             for start in ("b", "a", "p", "s"):
